@@ -648,6 +648,14 @@ pub fn drive_c08(a: &Args) {
             f.push(y);
         }
         f.push(vec![92, 117, 123, 51, 102, 102, 102, 102, 125]); // \u{3ffff} : out of range
+        // unclosed braced attempts with four, five and six digits (the longest ones the parser follows)
+        for k in 4..=6usize {
+            for d in [48u32, 51, 70] {
+                let mut y = vec![92, 117, 123];
+                y.extend(std::iter::repeat(d).take(k));
+                f.push(y);
+            }
+        }
         f
     };
     let seconds: Vec<Vec<u32>> = vec![
